@@ -180,6 +180,8 @@ class ExternalVariableCollector(NodeVisitor):
             self.assigned.add(node.name)
         self.generic_visit(node)
 
+    visit_AsyncFunctionDef = visit_FunctionDef
+
     def visit_ClassDef(self, node):
         # The class statement binds its name in the function's scope
         self.provenance.setdefault(node.name, "body")
@@ -729,6 +731,10 @@ class PteraTransformer(NodeTransformer):
     def visit_ClassDef(self, node):
         # The body of a nested class is its own scope: leave it alone (names
         # generated by ptera would also be mangled inside it).
+        return node
+
+    def visit_AsyncFunctionDef(self, node):
+        # Like a nested def: its body is not part of this function
         return node
 
     def visit_For(self, node):
